@@ -120,6 +120,13 @@ def _replay(path):
 
 
 def main(argv=None):
+    try:   # development aid: `kill -USR1 <pid>` prints the stack of every thread of a check that seems stuck
+        import faulthandler
+        import signal
+
+        faulthandler.register(signal.SIGUSR1, all_threads=True)
+    except Exception:  # noqa
+        pass
     ap = argparse.ArgumentParser()
     ap.add_argument("prop", nargs="?")
     ap.add_argument("--tier", default=None)
